@@ -4,10 +4,10 @@ import (
 	"bytes"
 	"context"
 	"crypto"
-	"encoding/json"
 	"crypto/hmac"
 	"crypto/sha256"
 	"crypto/sha512"
+	"encoding/json"
 	"fmt"
 	"hash"
 	"math/rand/v2"
